@@ -136,7 +136,7 @@ func NewStackingContextFromBox(box Box, page *bo.PageBox, childContexts *[]Stack
 				insertStackingContext(childContexts, index, NewStackingContextFromBox(box, page, childContexts))
 			} else if box.Box().IsFloated() {
 				floats = append(floats, NewStackingContextFromBox(box, page, childContexts))
-			} else if bo.InlineBlockT.IsInstance(box) || bo.InlineFlexT.IsInstance(box) {
+			} else if bo.InlineBlockT.IsInstance(box) || bo.InlineFlexT.IsInstance(box) || bo.InlineGridT.IsInstance(box) {
 				// Have this fake stacking context be part of the "normal"
 				// box tree, because we need its position in the middle
 				// of a tree of inline boxes.
